@@ -79,3 +79,44 @@ def run(S):
             [bind], bounds='all u32 heights < 2^31, expiry >= 39')
     S.no_panic('C08.c.nopanic', E, pre, 'no underflow for expiries admitted by the final-hop check', [bind])
     S.witness('C08.c.witness', E, pre, rv.t)
+    height_timer(S, D)
+
+
+def height_timer(S, D):
+    """C08.d: how often a pending on-chain claim is re-evaluated as its deadline approaches"""
+    from .pkg_common import sym_package, oracle_input_args, inputs_line
+    NCAP = 2 if S.tier == 'quick' else 3
+    E = S.engine(unwind=NCAP + 1)
+    mem = {}
+    f = S.fn('get_height_timer', first_param='PackageTemplate')
+    pkg_ref, pkg, views, n = sym_package(S, E, D, mem, NCAP)
+    h = E.sym('h', 'u32')
+    rv = S.call(E, f, [pkg_ref, h], mem)
+    csh = field(E, D, 'PackageTemplate', 'counterparty_spendable_height', mem[pkg_ref.cell], 'u32').t
+    pre = [h.t < (1 << 31), csh < 500000000] + [z3.And(v['off_cltv'] < 500000000, v['rec_cltv'] < 500000000, v['hol_cltv'] < 500000000) for v in views]
+    panic = z3.Or(*[X.zbool(p[0]) for p in E.panics]) if E.panics else False
+    args = oracle_input_args(E, views, n) + [csh, h.t]
+    b = Binding('get_height_timer', args, [rv.t], panic=panic, line_fn=inputs_line(NCAP))
+
+    def timer_for(T):
+        return z3.If(T <= h.t + 3, h.t + 1, z3.If(T <= h.t + 15, h.t + 3, h.t + 15))
+    spec = h.t + 15
+    per = []
+    for v in views:
+        k = v['kind']
+        # deadline by which the claim must be confirmed, per input kind (None = no deadline)
+        t = z3.If(k == 0, timer_for(csh),                                  # revoked to_local: their CSV expiry
+            z3.If(k == 1, h.t + 15,                                         # revoked HTLC: no urgency until it is spent
+            z3.If(k == 2, timer_for(v['off_cltv']),                         # inbound HTLC claimed by preimage: before its CLTV
+            z3.If(k == 3, timer_for(v['rec_cltv'] + MIN_CLTV_EXPIRY_DELTA),  # outbound HTLC timeout: before the inbound edge expires
+            z3.If(k == 4, z3.If(v['preimage'], timer_for(csh), timer_for(v['hol_cltv'] + MIN_CLTV_EXPIRY_DELTA)),
+                  h.t + 1)))))                                              # funding output: every block
+        t = z3.If(v['present'], t, h.t + 15)
+        per.append(t)
+        spec = z3.If(t < spec, t, spec)
+    S.prove('C08.d.height_timer', E, pre, rv.t == spec,
+            'the re-bump timer is the minimum over the inputs of: h+1 when the input deadline is within 3 blocks, h+3 within 15, else h+15; deadlines: CLTV for preimage claims of inbound HTLCs, CLTV + MIN_CLTV_EXPIRY_DELTA for time-outs of outbound HTLCs, the counterparty CSV height for revoked balances, every block for the funding output',
+            [b], bounds='<= %d inputs of any kind, heights < 2^31, expiries < 500000000' % NCAP)
+    S.prove('C08.d.range', E, pre, z3.And(rv.t > h.t, rv.t <= h.t + 15), 'the timer always lies in (h, h+15]', [b])
+    S.no_panic('C08.d.nopanic', E, pre, 'no overflow for block-height locktimes', [b])
+    S.witness('C08.d.witness', E, pre + [n == NCAP], rv.t == h.t + 3)
